@@ -114,8 +114,8 @@ func (r *ChunkReader) Read(p []byte) (int, error) {
 	return n, err
 }
 
-func vOffset(o bgzf.Offset) int64 {
-	return o.File<<16 | int64(o.Block)
+func vOffset(o bgzf.Offset) uint64 {
+	return uint64(o.File)<<16 | uint64(o.Block)
 }
 
 func min(a, b int) int {
